@@ -203,7 +203,7 @@ func discharge(o *Obligation, dir string, timeout int, confirm bool) *Result {
 		// invariants) must not be contradictory: "unsat" means every obligation
 		// below this point would hold vacuously
 		for _, sp := range solvers[:2] {
-			r, _, el := runSolver(sp, file, 3)
+			r, _, el := runSolver(sp, file, 2)
 			res.TimeS += el
 			if r == "unsat" {
 				return finish("cover-failed", sp.name, 0, "assumptions on this path are contradictory")
